@@ -348,7 +348,76 @@ func ruleC16R3(w *World, r *Report) {
 			}
 			r.Violate("C16.R3", key, w.instrPos(c), "the error result of "+name+" is discarded: a failure here is reported as success")
 		}
+		// an error put into a variable (named result, captured local) and overwritten or dropped before anything reads it
+		eachInstr(f, func(in ssa.Instruction) {
+			st, ok := in.(*ssa.Store)
+			if !ok || !isErrorType(st.Val.Type()) || !isCallError(st.Val) {
+				return
+			}
+			al, ok := st.Addr.(*ssa.Alloc)
+			if !ok || allocCaptured(al) {
+				return
+			}
+			if storeIsRead(st, al) {
+				return
+			}
+			r.Violate("C16.R3", fmt.Sprintf("%s:dead-error-store:%s", funcName(f), errSourceName(st.Val)), w.instrPos(st),
+				"the error of "+errSourceName(st.Val)+" is stored and then overwritten or dropped before anything tests it: a failure here is reported as success")
+		})
 	}
+}
+
+// allocCaptured: the variable is captured by a closure or its address escapes into a call (reads cannot be tracked).
+func allocCaptured(al *ssa.Alloc) bool {
+	for _, ref := range *al.Referrers() {
+		switch x := ref.(type) {
+		case *ssa.Store:
+			if x.Val == ssa.Value(al) {
+				return true
+			}
+		case *ssa.UnOp, *ssa.DebugRef:
+		default:
+			return true
+		}
+	}
+	return false
+}
+
+// storeIsRead: some path from st reaches a load of al before another store to it.
+func storeIsRead(st *ssa.Store, al *ssa.Alloc) bool {
+	seen := map[*ssa.BasicBlock]bool{}
+	var scan func(b *ssa.BasicBlock, from int) bool
+	scan = func(b *ssa.BasicBlock, from int) bool {
+		for i := from; i < len(b.Instrs); i++ {
+			switch x := b.Instrs[i].(type) {
+			case *ssa.UnOp:
+				if x.Op == token.MUL && x.X == ssa.Value(al) {
+					return true
+				}
+			case *ssa.Store:
+				if x.Addr == ssa.Value(al) {
+					return false
+				}
+			}
+		}
+		for _, s := range b.Succs {
+			if seen[s] {
+				continue
+			}
+			seen[s] = true
+			if scan(s, 0) {
+				return true
+			}
+		}
+		return false
+	}
+	b := st.Block()
+	for i, in := range b.Instrs {
+		if in == ssa.Instruction(st) {
+			return scan(b, i+1)
+		}
+	}
+	return true
 }
 
 // ---------- R4: Execute plumbing ----------
@@ -518,6 +587,36 @@ func ruleC16R4(w *World, r *Report) {
 				}
 			})
 			r.Check(surf, "C16.R4", "withTextOutWriter:finish", w.pos(wtow.Pos()), "finish runs deferred and its error reaches the named result", "the error of finish() (flush/sync/close of the text-out file) is not surfaced")
+			// the body runs only after newTextOutWriter's error was tested and found nil
+			{
+				var openErr ssa.Value
+				if ex, isEx := fCall.Common().Args[0].(*ssa.Extract); isEx {
+					if cv, ok := ex.Tuple.(*ssa.Call); ok {
+						for _, e := range errorOfCall(cv) {
+							openErr = e
+						}
+					}
+				}
+				tested := false
+				if openErr != nil {
+					for _, b := range wtow.Blocks {
+						x, _, nilHead, ok := nilTest(b)
+						if !ok || !edgeDominates(b, nilHead, fCall.Block()) {
+							continue
+						}
+						vals, _ := resolveValue(x, b.Instrs[len(b.Instrs)-1], map[ssa.Value]bool{})
+						for _, v := range vals {
+							if v == openErr {
+								tested = true
+							}
+						}
+						if x == openErr {
+							tested = true
+						}
+					}
+				}
+				r.Check(tested, "C16.R4", "withTextOutWriter:open-error-tested", w.instrPos(fCall), "f runs only where newTextOutWriter's error was found nil", "withTextOutWriter runs the command body without having tested the error of newTextOutWriter: when the -text-out file cannot be opened the body writes to a nil writer (panic) or the failure is lost")
+			}
 			// the body always runs: a return that does not come after f(tow) carries an error known to be non-nil
 			skips := returnSkipping(w, wtow, fCall, 0)
 			r.Check(skips == "", "C16.R4", "withTextOutWriter:f-always-runs", w.pos(wtow.Pos()), "every return that skips the command body reports a non-nil error", "withTextOutWriter can return at "+skips+" without running the command body and without an error known to be non-nil: the command reports success without doing its work")
@@ -592,10 +691,55 @@ func ruleC16R4(w *World, r *Report) {
 						}
 					}
 				}
+				// the converse: when finish fails and the body did not, the result becomes finish's error
+				for _, l := range e.leaves {
+					finNonNil, resNil, resNonNil := false, false, false
+					for k, chosen := range l.atoms {
+						bo, ok := l.atomVal[k].(*ssa.BinOp)
+						if !ok || (bo.Op != token.NEQ && bo.Op != token.EQL) {
+							continue
+						}
+						x := bo.X
+						if isNilConst(bo.X) {
+							x = bo.Y
+						} else if !isNilConst(bo.Y) {
+							continue
+						}
+						isNil := chosen == (bo.Op == token.EQL)
+						if c, isCall := x.(*ssa.Call); isCall && c.Common().StaticCallee() == nil && !c.Common().IsInvoke() && !isNil {
+							finNonNil = true
+						}
+						if u, ok := x.(*ssa.UnOp); ok && u.Op == token.MUL {
+							for _, st := range stores {
+								if u.X == st.Addr {
+									resNil, resNonNil = isNil, !isNil
+								}
+							}
+						}
+					}
+					_ = resNil
+					if !finNonNil || resNonNil {
+						continue
+					}
+					stored := false
+					for _, st := range stores {
+						for _, b := range l.path {
+							if b == st.Block() {
+								if c, isCall := st.Val.(*ssa.Call); isCall && c.Common().StaticCallee() == nil {
+									stored = true
+								}
+							}
+						}
+					}
+					if !stored && bad == "" {
+						bad = "when finish() fails and the body succeeded the failure is not stored into the result"
+					}
+				}
 				r.Check(bad == "", "C16.R4", "withTextOutWriter:finish-keeps-error", w.pos(df.Pos()), "the result is overwritten only by a non-nil finish error or when it held no error", bad+": the command's failure is replaced by success")
 			})
 		}
 	}
+	ruleTextOutFinish(w, r, "C16.R4")
 	// main.runSubcommand
 	if rs := need(w, r, "C16.R4", w.Main, "runSubcommand"); rs != nil {
 		var parseCall, execCall *ssa.Call
